@@ -139,12 +139,24 @@ Definition deser_Polygons : reader (list polyelem) :=
   npol <- rd_int ;; pes <- rrepZ npol deser_PolyElem ;; ret (filter keep_pe pes).
 
 (* ====================================================================== AnamHermite (AnamContinuous.cpp:165-221, AnamHermite.cpp:618-648) *)
-(* setPsiHns(hermite); setRCoef(r) => calculateMeanAndVariance(): _mean = _psiHn[0], _variance = sum_{i>=1} psiHn[i]^2
-   (computeVariance(1.)): mean and variance of the file are overwritten on reload.  _flagBound is not written. *)
+(* state: bounds, mean, variance, _rCoef and the raw coefficients _psiHn.
+   _serialize writes getPsiHns(): when a change of support is defined (_rCoef < 1, AnamHermite.hpp:45) these are the
+   coefficients multiplied by r^i (AnamHermite.cpp:389-403).  _deserialize stores what it reads as raw coefficients
+   (setPsiHns) together with the same r (setRCoef), which recomputes _mean = _psiHn[0] and
+   _variance = sum_{i>=1} getPsiHn(i)^2 (computeVariance(1.)).  _flagBound is not written. *)
 Record anam_hermite := {
   ah_azmin : dbl; ah_azmax : dbl; ah_aymin : dbl; ah_aymax : dbl;
   ah_pzmin : dbl; ah_pzmax : dbl; ah_pymin : dbl; ah_pymax : dbl;
   ah_mean : dbl; ah_variance : dbl; ah_rcoef : dbl; ah_psi : list dbl }.
+Definition dsq (a : dbl) : dbl := dmul a a.
+Definition dadd (a b : dbl) : dbl := match a, b with Some x, Some y => Some (Qred (x + y)) | _, _ => None end.
+Definition csd (r : dbl) : bool := match r with Some q => negb (Qle_bool 1 q) | None => false end.   (* _rCoef < 1. *)
+Fixpoint scale_from (r rv : dbl) (l : list dbl) : list dbl :=
+  match l with [] => [] | p :: t => let rv' := dmul rv r in dmul p rv' :: scale_from r rv' t end.
+Definition psi_eff (r : dbl) (psi : list dbl) : list dbl :=                       (* getPsiHns() *)
+  if csd r then match psi with [] => [] | p0 :: t => p0 :: scale_from r d1 t end else psi.
+Definition hermite_variance (r : dbl) (psi : list dbl) : dbl :=
+  fold_right (fun p acc => dadd (dsq p) acc) d0 (tl (psi_eff r psi)).
 Definition ser_AnamHermite (o : anam_hermite) : list record :=
   [ r_dbl "" (ah_azmin o); r_dbl "Absolute Values for Z" (ah_azmax o);
     r_dbl "" (ah_aymin o); r_dbl "Absolute Values for Y" (ah_aymax o);
@@ -153,10 +165,7 @@ Definition ser_AnamHermite (o : anam_hermite) : list record :=
     r_dbl "Calculated mean" (ah_mean o); r_dbl "Calculated variance" (ah_variance o);
     r_dbl "Change of support coefficient" (ah_rcoef o);
     r_int "Number of Hermite Polynomials" (lenZ (ah_psi o));
-    r_vdbl "Hermite Polynomial" (ah_psi o) ].
-Definition dsq (a : dbl) : dbl := dmul a a.
-Definition dadd (a b : dbl) : dbl := match a, b with Some x, Some y => Some (Qred (x + y)) | _, _ => None end.
-Definition hermite_variance (psi : list dbl) : dbl := fold_right (fun p acc => dadd (dsq p) acc) d0 (tl psi).
+    r_vdbl "Hermite Polynomial" (psi_eff (ah_rcoef o) (ah_psi o)) ].
 Definition deser_AnamHermite : reader anam_hermite :=
   azmin <- rd_dbl ;; azmax <- rd_dbl ;; aymin <- rd_dbl ;; aymax <- rd_dbl ;;
   pzmin <- rd_dbl ;; pzmax <- rd_dbl ;; pymin <- rd_dbl ;; pymax <- rd_dbl ;;
@@ -164,4 +173,4 @@ Definition deser_AnamHermite : reader anam_hermite :=
   psi <- rd_vdbl nbpoly ;;
   ret {| ah_azmin := azmin; ah_azmax := azmax; ah_aymin := aymin; ah_aymax := aymax;
          ah_pzmin := pzmin; ah_pzmax := pzmax; ah_pymin := pymin; ah_pymax := pymax;
-         ah_mean := hd d0 psi; ah_variance := hermite_variance psi; ah_rcoef := r; ah_psi := psi |}.
+         ah_mean := hd d0 psi; ah_variance := hermite_variance r psi; ah_rcoef := r; ah_psi := psi |}.
